@@ -270,7 +270,15 @@ def ctor_cases():
     for kind in ('search', 'hyper', 'tree'):
         nd = 2 if kind == 'hyper' else 1
         combos += [(kind, 2, 1, nd, 2, -1, 0), (kind, 2, 1, nd, 2, 0, -1), (kind, 1, 1, nd, 1, -1, -1), (kind, 2, 2, nd, 2, -2, 0), (kind, 2, 2, nd, 2, 0, -2)]
-    for (kind, na, nv, nd, ni, dl, du) in combos:
+    # bounds given as tuples or NumPy arrays instead of lists (valid: they are converted with np.asarray), right and wrong lengths
+    bkinds = {}
+    for kind in ('search', 'hyper', 'tree'):
+        nd = 2 if kind == 'hyper' else 1
+        for bk in ('tuple', 'array'):
+            for (nv_, dl_, du_) in ((1, 0, 0), (2, 0, 0), (1, 1, 0), (1, 0, 2), (2, -1, 0)):
+                bkinds[len(combos)] = bk
+                combos.append((kind, 2, nv_, nd, 2, dl_, du_))
+    for ci, (kind, na, nv, nd, ni, dl, du) in enumerate(combos):
         nvi = nv if isinstance(nv, int) and not isinstance(nv, bool) and nv > 0 else 2
         lb = [r.choice([-10.0, 0.0, -1e-3, 5.0, -1e6]) for _ in range(max(0, nvi + dl))]
         ub = [(lb[j] if j < len(lb) else 0.0) + r.choice([0.0, 1.0, 1e-9, 20.0, 1e6]) for j in range(max(0, nvi + du))]
@@ -296,13 +304,18 @@ def ctor_cases():
             return [low + (high - low) * r.random() for _ in range(n)]
 
         res = {}
+        lb_arg, ub_arg = lb, ub
+        if bkinds.get(ci) == 'tuple':
+            lb_arg, ub_arg = tuple(lb), tuple(ub)
+        elif bkinds.get(ci) == 'array':
+            lb_arg, ub_arg = np.array(lb, dtype=float), np.array(ub, dtype=float)
         with hlib.ScriptedUniform(fn) as su:
-            res = ctor_build(kind, na, nv, nd, ni, lb, ub)
+            res = ctor_build(kind, na, nv, nd, ni, lb_arg, ub_arg)
             draws = [[key(v) for v in c[3]] for c in su.calls]
         res_oracle = ctor_oracle(kind, na, nv, nd, ni, lb, ub, res)
         cases.append({'kind': kind, 'oracle': res_oracle, 'n_agents': enc(na), 'n_vars': enc(nv), 'n_dims': enc(nd), 'n_iters': enc(ni),
                       'lb': [key(v) for v in lb], 'ub': [key(v) for v in ub], 'draws': draws, 'res': res,
-                      'raw': [repr(na), repr(nv), repr(nd), repr(ni), len(lb), len(ub), mode, typing, repr(lb), repr(ub)]})
+                      'raw': [repr(na), repr(nv), repr(nd), repr(ni), len(lb), len(ub), mode, typing, repr(lb), repr(ub), bkinds.get(ci, 'list')]})
     return cases
 
 
